@@ -46,4 +46,77 @@ theorem meshPolygon_ok_bound_measured (poly : Polygon α) (ma mar : α) (fuel : 
   rw [← meshPolygon_cachedAR poly ma mar fuel t' h j tp htp]
   exact hb
 end generic
+
+section Real
+open C19
+noncomputable section
+
+theorem cross_shift (a b c : V3 ℝ) : (b - a).cross (c - a) = (b - a).cross (c - b) := by
+  apply V3.ext' <;> (vec_real; ring)
+
+/-- what `Triangle3D::new` accepted is not degenerate: `|(b − a) × (c − a)| ≥ 1e-5` -/
+theorem newOk_nondegenerate (a b c : V3 ℝ) (h : NewOk (a, b, c)) : ((b - a).cross (c - a)).lengthSquared ≠ 0 := by
+  obtain ⟨tri, htri⟩ := h
+  simp only [] at htri
+  unfold Triangle.new at htri
+  split at htri
+  · cases htri
+  · rename_i hne
+    cases hc : a.isCollinearR b c with
+    | err e => simp [hc, Res.unwrap] at htri
+    | panic q => simp [hc, Res.unwrap] at htri
+    | ok v =>
+      cases v with
+      | true => simp [hc, Res.unwrap] at htri
+      | false =>
+        unfold V3.isCollinearR at hc
+        cases hi : a.isCollinear b c with
+        | none => simp [hi] at hc
+        | some r =>
+          simp only [hi, Res.ok.injEq] at hc
+          subst hc
+          unfold V3.isCollinear at hi
+          have key : (((b - a).cross (c - b)).length <. (1e-5 : ℝ)) = false := by
+            by_cases h1 : (a.compare b && a.compare c) = true
+            · simp [h1] at hi
+            · simp only [h1, Bool.false_eq_true, if_false] at hi
+              by_cases h2 : (a.compare b || a.compare c || b.compare c) = true
+              · simp [h2] at hi
+              · simp only [h2, Bool.false_eq_true, if_false, Option.some.injEq] at hi
+                exact hi
+          bool_real_at key
+          num_real_at key
+          rw [cross_shift]
+          intro h0
+          have : ((b - a).cross (c - b)).length = 0 := by
+            simp only [V3.length, real_sqrt, h0, Real.sqrt_zero]
+          rw [this] at key
+          norm_num at key
+
+/-- **C18 end to end, in exact arithmetic**: when `mesh_polygon` succeeds, every returned triangle is below the area floor of `refine`
+    or its circumradius — the distance from its circumcentre to its corners — over its shortest edge (capped at 1e19) does not
+    exceed the requested maximum aspect ratio -/
+theorem meshPolygon_ok_circumradius_bound (poly : Polygon ℝ) (ma mar : ℝ) (fuel : Nat) (t' : Mesh ℝ)
+    (h : meshPolygon poly ma mar fuel = .ok t') :
+    ∀ j, j < t'.triangles.size → ∃ tp, t'.triangles[j]? = some tp ∧ tp.valid = true ∧
+      ((tp.triangle.area <. (1e-3 : ℝ)) = true ∨
+        (tp.triangle.circumcenter - tp.triangle.a).length
+          / min (min (min (1e19 : ℝ) tp.triangle.ab.length) tp.triangle.bc.length) tp.triangle.ca.length ≤ mar) := by
+  intro j hj
+  obtain ⟨tp, htp, hv, hb⟩ := meshPolygon_ok_bound_measured poly ma mar fuel t' h j hj
+  refine ⟨tp, htp, hv, ?_⟩
+  rcases hb with hb | hb
+  · exact Or.inl hb
+  · right
+    have hall := meshPolygon_allNewOk poly ma mar fuel t' h
+    have hmem : some (tp.triangle.a, tp.triangle.b, tp.triangle.c) ∈ vgeom t' := by
+      have : (vgeom t')[j]? = some (some (tp.triangle.a, tp.triangle.b, tp.triangle.c)) := by
+        rw [vgeom_getElem?, htp]; simp [slotV, hv]
+      exact List.mem_of_getElem? this
+    have hnd := newOk_nondegenerate _ _ _ (hall _ hmem)
+    rw [← aspectRatio_eq tp.triangle hnd]
+    bool_real_at hb
+    exact hb
+end
+end Real
 end G3d.C18M
